@@ -31,7 +31,7 @@ impl Property for Prop {
         "C04"
     }
     fn rule(&self) -> &'static str {
-        "exhaustive: every lock-step history of the given depth (quick 4, thorough 5) over a 43-operation alphabet: encap fitting / fragmenting / failing (too small) for labels {A6,B6,C3,D3,broadcast,explicit re-use}; encap_ext (fitting for {A6,C3,broadcast}, fragmenting for {A6,C3}), PDU-too-long and bad-protocol-type failures for {A6,C3,broadcast}; zero label; a 6-byte label numerically equal to the 3-byte one; first fragments leaving only a few bytes / carrying no payload byte; encap_frag continuation of the oldest pending train; encap_frag called again with a stale context (a train superseded on its fragment id, or the end packet of a finished train re-sent: the receiver refuses it, nothing is demanded about the PDUs so mixed, everything else must stay attributable and deliverable); reset of both sides; disable; enable; enable_max(0/1/2); the accessor calls set_crc_calculator (an equal calculator) / get_crc_calculator / is_enabled_re_use_label, which must not touch the label policy; each produced packet is fed to the receiver at once; key = first two operations. random: seeded histories of 50..2000 operations. rxstreams: traffic recorded from a random history, then mutated (drops, duplicates, swaps, byte corruption, junk and padding insertion, resets at random points) and fed to a fresh receiver (half of them with scarce storage, so that packets rejected for lack of storage sit between label-carrying and re-use packets) under the receiver-only clause. Non-trivial = a history in which the receiver resolved at least one re-use label or delivered at least one PDU; fingerprint = hash of the operation sequence / mutated stream."
+        "exhaustive: every lock-step history of the given depth (quick 4, thorough 5) over a 46-operation alphabet: encap fitting / fragmenting / failing (too small) for labels {A6,B6,C3,D3,broadcast,explicit re-use}; encap_ext (fitting for {A6,C3,broadcast}, fragmenting for {A6,C3}), PDU-too-long and bad-protocol-type failures for {A6,C3,broadcast}; zero label; a 6-byte label numerically equal to the 3-byte one; a 6-byte label sharing its first three bytes with another; signalling PDUs (encap_ext with the final mandatory extension 0x0081, receiver with the signalisation table) for {B6, broadcast}; first fragments leaving only a few bytes / carrying no payload byte; encap_frag continuation of the oldest pending train; encap_frag called again with a stale context (a train superseded on its fragment id, or the end packet of a finished train re-sent: the receiver refuses it, nothing is demanded about the PDUs so mixed, everything else must stay attributable and deliverable); reset of both sides; disable; enable; enable_max(0/1/2); the accessor calls set_crc_calculator (an equal calculator) / get_crc_calculator / is_enabled_re_use_label, which must not touch the label policy; each produced packet is fed to the receiver at once; key = first two operations. random: seeded histories of 50..2000 operations. rxstreams: traffic recorded from a random history, then mutated (drops, duplicates, swaps, byte corruption, junk and padding insertion, resets at random points) and fed to a fresh receiver (half of them with scarce storage, so that packets rejected for lack of storage sit between label-carrying and re-use packets) under the receiver-only clause. Non-trivial = a history in which the receiver resolved at least one re-use label or delivered at least one PDU; fingerprint = hash of the operation sequence / mutated stream."
     }
     fn gens(&self, cx: &Cx) -> Vec<Gen> {
         let a = alphabet_c04().len() as u64;
